@@ -239,7 +239,10 @@ def judge(item, ex, specs, kwargs, env, pick_branch):
     b = ex.branches[bi]
     lawv = None
     if not isinstance(got, (list, tuple)):
-        lawv = direct_law_value(ex, b, env)
+        try:
+            lawv = direct_law_value(ex, b, env)
+        except Exception:  # pylint: disable=broad-except
+            lawv = None
     if lawv is not None and not (isinstance(lawv, float) and math.isnan(lawv)):
         rec["law_value"] = lawv
         exc = next((s.exception for s in specs if s.branch == bi), "")
